@@ -201,6 +201,10 @@ def run_c03(tier, t0):
         jobs = []
         # (a) objects built through the API, (b) load-then-edit, both with final save + snapshot
         corp_paths, corp_metas, lst = make_corpus(os.path.join(wd, "corpus"), 120 if tier == "quick" else 600, first=200000, vendor=False)
+        # ... plus files whose data start at block 256/257 (a loaded POINT:DATA_START above 255: both bytes of the rewritten pointer matter)
+        p2, m2, l2 = make_corpus(os.path.join(wd, "corpus_ds"), 8 if tier == "quick" else 40, first=205000, vendor=False, data_block_min=256)
+        corp_paths += p2; corp_metas += m2
+        open(lst, "a").write("\n".join(p2) + "\n")
         workloads = [("api", ["--profile", "c01", "--maxops", "36", "--dump-final", "--maxdesc", "255"], int(nh * 0.45)),
                      ("api_refusals", ["--profile", "c10", "--maxops", "36", "--dump-final"], int(nh * 0.15)),
                      ("load_then_edit", ["--profile", "mixed", "--maxops", "14", "--dump-final", "--start", lst, "--maxdesc", "255"], int(nh * 0.3)),
